@@ -285,6 +285,10 @@ class Gen:
             else:
                 if self.r.chance(0.8):
                     p["rs"] = self.neg(self.r.pick([0.01, 0.05, 0.1, 0.2]))
+                if self.cfg.get("rect_rs_list"):
+                    # documented as `float | list` and accepted by the constructor
+                    # (separate, rarely enabled input class: known finding D3)
+                    p["rs"] = [0.05, 0.1]
                 g = self.eng(-4, -3) * si
                 if self.r.chance(0.6):
                     p["ig"] = self.maybe_table("ig", self.neg(g), 0.5 * g, 2 * g, a, 0.2 * si)
